@@ -156,6 +156,8 @@ type Exec struct {
 	trackFoot bool
 	inInit    int
 	known     map[*Term]bool
+	model     Model // a model of the current path condition, or nil
+	auxVars   []*Term
 }
 
 func (ex *Exec) end(kind endKind, format string, args ...interface{}) {
@@ -182,8 +184,24 @@ func (ex *Exec) take(c *Term, d bool) {
 	ex.W.solver.Assert(c)
 	ex.pc = append(ex.pc, c)
 	ex.learn(c)
+	ex.keepModel(c)
 	ex.decisions = append(ex.decisions, Dec{K: k})
 	ex.pos++
+}
+
+// keepModel drops the cached model unless it satisfies the new conjunct.
+func (ex *Exec) keepModel(c *Term) {
+	if ex.model != nil && c.Eval(ex.model, map[*Term]uint64{}) == 0 {
+		ex.model = nil
+	}
+}
+
+// holdsInModel evaluates c under the cached model of the path condition.
+func (ex *Exec) holdsInModel(c *Term) (val bool, ok bool) {
+	if ex.model == nil {
+		return false, false
+	}
+	return c.Eval(ex.model, map[*Term]uint64{}) != 0, true
 }
 
 // learn records literals that are now part of the path condition, so that a
@@ -261,11 +279,10 @@ func (ex *Exec) prefixBool() bool {
 
 func (ex *Exec) check(extra *Term, wantModel bool) (SatResult, Model) {
 	var vars []*Term
-	if wantModel {
-		for _, d := range ex.draws {
-			vars = append(vars, d.T)
-		}
+	for _, d := range ex.draws {
+		vars = append(vars, d.T)
 	}
+	vars = append(vars, ex.auxVars...)
 	var ex1 []*Term
 	if extra != nil {
 		ex1 = []*Term{extra}
@@ -297,22 +314,46 @@ func (ex *Exec) branch(c *Term) bool {
 		ex.take(c, d)
 		return d
 	}
-	rt, _ := ex.check(c, false)
+	// one side may already be witnessed by the cached model of pc
+	if mv, ok := ex.holdsInModel(c); ok {
+		other := c
+		if mv {
+			other = ex.ts.BNot(c)
+		}
+		ro, mo := ex.check(other, true)
+		if ro == Unsat {
+			ex.take(c, mv)
+			return mv
+		}
+		ex.forkFalse()
+		if !mv {
+			ex.model = mo
+		}
+		ex.take(c, true)
+		return true
+	}
+	rt, mt := ex.check(c, true)
 	if rt == Unsat {
 		ex.take(c, false)
 		return false
 	}
 	rf, _ := ex.check(ex.ts.BNot(c), false)
 	if rf == Unsat {
+		ex.model = mt
 		ex.take(c, true)
 		return true
 	}
+	ex.forkFalse()
+	ex.model = mt
+	ex.take(c, true)
+	return true
+}
+
+func (ex *Exec) forkFalse() {
 	other := make([]Dec, len(ex.decisions)+1)
 	copy(other, ex.decisions)
 	other[len(ex.decisions)] = Dec{K: decFalse}
 	ex.W.E.enqueue(other)
-	ex.take(c, true)
-	return true
 }
 
 // assume restricts the path; an infeasible assumption ends it silently.
@@ -329,12 +370,15 @@ func (ex *Exec) assume(c *Term) {
 	ex.W.solver.Assert(c)
 	ex.pc = append(ex.pc, c)
 	ex.learn(c)
-	if ex.inPrefix() {
+	ex.keepModel(c)
+	if ex.inPrefix() || ex.model != nil {
 		return
 	}
-	if r, _ := ex.check(nil, false); r == Unsat {
+	r, m := ex.check(nil, true)
+	if r == Unsat {
 		ex.end(endInfeasible, "assumption infeasible")
 	}
+	ex.model = m
 }
 
 func (ex *Exec) modelDraws(m Model) []DrawRec {
@@ -370,7 +414,22 @@ func (ex *Exec) shrunkModel(extra *Term, any Model) Model {
 	for _, d := range ex.draws {
 		vars = append(vars, d.T)
 	}
+	vars = append(vars, ex.auxVars...)
+	curMax := uint64(0)
+	if any != nil {
+		memo := map[*Term]uint64{}
+		for _, t := range big {
+			if v := t.Eval(any, memo); v > curMax {
+				curMax = v
+			}
+		}
+	} else {
+		curMax = ^uint64(0)
+	}
 	for _, B := range []uint64{16, 256, 4096, 1 << 17} {
+		if curMax <= B {
+			break
+		}
 		c := ts.True()
 		for _, t := range big {
 			c = ts.And(c, ts.Ule(t, ts.Const(t.W, B)))
@@ -405,13 +464,22 @@ func (ex *Exec) oblige(c *Term, id string) {
 		ex.recordViolation(id, ex.shrunkModel(nil, m), true)
 		ex.end(endViolated, "obligation %s violated on every input of this path", id)
 	}
-	r, m := ex.check(ex.ts.BNot(c), true)
-	if r == Sat {
-		ex.recordViolation(id, ex.shrunkModel(ex.ts.BNot(c), m), false)
+	mv, haveModel := ex.holdsInModel(c)
+	if haveModel && !mv {
+		// the cached model of pc is itself a counterexample
+		ex.recordViolation(id, ex.shrunkModel(ex.ts.BNot(c), ex.model), false)
+	} else {
+		r, m := ex.check(ex.ts.BNot(c), true)
+		if r == Sat {
+			ex.recordViolation(id, ex.shrunkModel(ex.ts.BNot(c), m), false)
+		}
 	}
-	r2, _ := ex.check(c, false)
-	if r2 == Unsat {
-		ex.end(endViolated, "obligation %s violated on every input of this path", id)
+	if !(haveModel && mv) {
+		r2, m2 := ex.check(c, true)
+		if r2 == Unsat {
+			ex.end(endViolated, "obligation %s violated on every input of this path", id)
+		}
+		ex.model = m2
 	}
 	ex.take(c, true)
 }
@@ -504,19 +572,14 @@ func (ex *Exec) concretize(t *Term, lo, hi uint64) uint64 {
 			}
 			panic("decision prefix out of step (expected a concretisation)")
 		}
-		r, m := ex.W.solver.Check(nil, []*Term{t})
-		if r == Unknown {
-			ex.end(endInconclusive, "solver answered unknown/error: %s", ex.W.solver.lastErr)
+		if ex.model == nil {
+			r, m := ex.check(nil, true)
+			if r == Unsat {
+				ex.end(endInfeasible, "no value left in concretize")
+			}
+			ex.model = m
 		}
-		if r == Unsat {
-			ex.end(endInfeasible, "no value left in concretize")
-		}
-		var v uint64
-		if t.Op == OVar {
-			v = m[t.Name]
-		} else {
-			v = m[t.ref()]
-		}
+		v := t.Eval(ex.model, map[*Term]uint64{})
 		eq := ts.Eq(t, ts.Const(t.W, v))
 		if r2, _ := ex.check(ts.BNot(eq), false); r2 == Sat {
 			other := make([]Dec, len(ex.decisions)+1)
@@ -526,6 +589,7 @@ func (ex *Exec) concretize(t *Term, lo, hi uint64) uint64 {
 		}
 		ex.W.solver.Assert(eq)
 		ex.pc = append(ex.pc, eq)
+		ex.learn(eq)
 		ex.decisions = append(ex.decisions, Dec{K: decEq, V: v})
 		ex.pos++
 		return v
@@ -708,7 +772,10 @@ func (w *Worker) runPath(prefix []Dec) {
 					panic(r)
 				}
 			}()
-			_, m := ex.check(nil, true)
+			m := ex.model
+			if m == nil {
+				_, m = ex.check(nil, true)
+			}
 			if m == nil {
 				m = Model{}
 			}
